@@ -28,11 +28,12 @@ type c03Scenario struct {
 
 func init() {
 	register(&PropDef{
-		ID:   "C03",
-		Rule: "scenario = (client configuration incl. TLS policy / SM / resource / credential kind / resumable state from a previous simulated session) x (server script: one alphabet entry per negotiation step, success variants, reply delays) x (segmentation, latency); non-trivial = the server received the client's stream header; distinct = distinct (scenario hash, schedule hash)",
-		Real: []string{"xmpp.Client.Connect/Resume", "xmpp.NewSession and every negotiation step", "auth (SASL)", "xmpp.XMPPTransport incl. StartTLS over crypto/tls", "stanza codec"},
-		Stub: []string{"TCP (simnet)", "XMPP server (scripted model with per-step reply alphabet, real crypto/tls server side)", "clock (synctest)", "goroutine scheduling (token scheduler)", "TLS entropy (seeded)"},
-		Run:  runC03,
+		ID:    "C03",
+		Rule:  "scenario = (client configuration incl. TLS policy / SM / resource / credential kind / resumable state from a previous simulated session) x (server script: one alphabet entry per negotiation step, success variants, reply delays) x (segmentation, latency); non-trivial = the server received the client's stream header; distinct = distinct (scenario hash, schedule hash)",
+		Real:  []string{"xmpp.Client.Connect/Resume", "xmpp.NewSession and every negotiation step", "auth (SASL)", "xmpp.XMPPTransport incl. StartTLS over crypto/tls", "stanza codec"},
+		Stub:  []string{"TCP (simnet)", "XMPP server (scripted model with per-step reply alphabet, real crypto/tls server side)", "clock (synctest)", "goroutine scheduling (token scheduler)", "TLS entropy (seeded)"},
+		Run:   runC03,
+		Reach: []string{"c03.success", "c03.previous_session_on_tls", "tls.handshake_complete"},
 	})
 }
 
